@@ -488,14 +488,18 @@ def install(rt: Runtime) -> Runtime:
     def np_where(v, *alt):
         if alt:
             a, b = alt
-            if isinstance(v, Vec):
+            if isinstance(v, Vec) and not isinstance(a, Mat) and not isinstance(b, Mat):
                 av = a.vals if isinstance(a, Vec) else [a] * len(v.vals)
                 bv = b.vals if isinstance(b, Vec) else [b] * len(v.vals)
+                if len(av) != len(v.vals) or len(bv) != len(v.vals):
+                    raise ValueError("operands could not be broadcast together")
                 return Vec([x if c else y for c, x, y in zip(v.vals, av, bv)])
             if isinstance(v, Mat):
-                ar = a.rows if isinstance(a, Mat) else [[a] * len(r) for r in v.rows]
-                br = b.rows if isinstance(b, Mat) else [[b] * len(r) for r in v.rows]
-                return Mat([[x if c else y for c, x, y in zip(r, r1, r2)] for r, r1, r2 in zip(v.rows, ar, br)])
+                from .abseval import broadcast2
+                cr, ar = broadcast2(v, a, None)                     # condition and first choice to a common shape
+                cr2, br = broadcast2(Mat(cr), b, None)              # then with the second choice
+                _c3, ar = broadcast2(Mat(cr2), Mat(ar), None)       # the first choice follows
+                return Mat([[x if c else y for c, x, y in zip(r, r1, r2)] for r, r1, r2 in zip(cr2, ar, br)])
             return a if v else b
         if isinstance(v, Vec):
             return (Vec([i for i, m in enumerate(v.vals) if m]),)
@@ -526,7 +530,15 @@ def install(rt: Runtime) -> Runtime:
         vals = v.vals if isinstance(v, Vec) else list(v)
         return Vec(sorted(range(len(vals)), key=lambda i: vals[i]))
 
-    def np_count_nonzero(v):
+    def np_count_nonzero(v, axis=None):
+        if isinstance(v, Mat):
+            if axis is None:
+                return sum(1 for r in v.rows for x in r if x)
+            if axis in (1, -1):
+                return Vec([sum(1 for x in r if x) for r in v.rows])
+            if axis == 0:
+                return Vec([sum(1 for x in c if x) for c in zip(*v.rows)])
+            raise Unsupported("count_nonzero axis")
         vals = v.vals if isinstance(v, Vec) else list(v)
         return sum(1 for x in vals if x)
 
@@ -541,10 +553,22 @@ def install(rt: Runtime) -> Runtime:
 
     def np_logical(op):
         def f(a, b):
-            if isinstance(a, Mat) and isinstance(b, Mat):
-                return Mat([[op(x, y) for x, y in zip(r1, r2)] for r1, r2 in zip(a.rows, b.rows)])
+            from .abseval import broadcast2, ColVec
+            if isinstance(a, (Mat, ColVec)) or isinstance(b, (Mat, ColVec)):
+                ar, br = broadcast2(a, b, None)
+                return Mat([[op(x, y) for x, y in zip(r1, r2)] for r1, r2 in zip(ar, br)])
             if isinstance(a, Vec) and isinstance(b, Vec):
-                return Vec([op(x, y) for x, y in zip(a.vals, b.vals)])
+                if len(a.vals) != len(b.vals) and 1 not in (len(a.vals), len(b.vals)):
+                    raise ValueError("operands could not be broadcast together")
+                av = a.vals * len(b.vals) if len(a.vals) == 1 else a.vals
+                bv = b.vals * len(a.vals) if len(b.vals) == 1 else b.vals
+                return Vec([op(x, y) for x, y in zip(av, bv)])
+            if isinstance(a, Vec) or isinstance(b, Vec):
+                vec, other = (a, b) if isinstance(a, Vec) else (b, a)
+                if isinstance(other, (bool, int, float)):
+                    return Vec([op(x, other) if vec is a else op(other, x) for x in vec.vals])
+            if isinstance(a, (bool, int, float)) and isinstance(b, (bool, int, float)):
+                return op(a, b)
             raise Unsupported("logical operands")
         return f
 
@@ -555,14 +579,20 @@ def install(rt: Runtime) -> Runtime:
     def elementwise(f2):
         def g(a, b, **kw):
             if isinstance(a, Mat) or isinstance(b, Mat):
-                shape_of = a if isinstance(a, Mat) else b
-                ar = a.rows if isinstance(a, Mat) else [[a] * len(r) for r in shape_of.rows]
-                br = b.rows if isinstance(b, Mat) else [[b] * len(r) for r in shape_of.rows]
+                from .abseval import broadcast2
+                ar, br = broadcast2(a, b, None)
                 return Mat([[f2(x, y, **kw) for x, y in zip(r1, r2)] for r1, r2 in zip(ar, br)])
             if isinstance(a, Vec) or isinstance(b, Vec):
                 n = len(a.vals) if isinstance(a, Vec) else len(b.vals)
                 av = a.vals if isinstance(a, Vec) else [a] * n
                 bv = b.vals if isinstance(b, Vec) else [b] * n
+                if len(av) != len(bv):
+                    if len(av) == 1:
+                        av = av * len(bv)
+                    elif len(bv) == 1:
+                        bv = bv * len(av)
+                    else:
+                        raise ValueError("operands could not be broadcast together")
                 return Vec([f2(x, y, **kw) for x, y in zip(av, bv)])
             return f2(a, b, **kw)
         return g
@@ -858,6 +888,9 @@ def install(rt: Runtime) -> Runtime:
     ex["numpy.diff"] = fn(lambda v: Vec([b - a for a, b in zip(vals_of(v), vals_of(v)[1:])]))
     ex["numpy.prod"] = fn(lambda v: math.prod(num(x) for x in vals_of(v)))
     def np_dot(a, b):
+        from .abseval import _matmul
+        if isinstance(a, (Mat, Vec)) and isinstance(b, (Mat, Vec)) and (isinstance(a, Mat) or isinstance(b, Mat)):
+            return _matmul(a, b, None)          # shapes checked, boolean operands give booleans
         if isinstance(a, Mat) and isinstance(b, Mat):
             cols = list(zip(*b.rows))
             return Mat([[sum(x * y for x, y in zip(r, c)) for c in cols] for r in a.rows])
